@@ -30,6 +30,7 @@ import (
 	"os"
 	"strconv"
 	"strings"
+	"sync/atomic"
 	"testing"
 	"time"
 
@@ -68,6 +69,13 @@ func (cw *c15World) completion(ctx context.Context, req llm.CompletionRequest, f
 	for i := 0; i < n; i++ {
 		verifsim.Sleep(time.Duration(verifsim.Draw("lat", 30)) * time.Millisecond)
 		if err := ctx.Err(); err != nil {
+			// the caller has gone. The real client (llm.Completion) tests the context and
+			// delivers the line it has just read in two steps: one more fragment may arrive
+			// after the cancellation
+			if verifsim.Draw("c15-frag-in-flight", 2) == 0 {
+				verifsim.Probe("c15_fragment_after_cancel")
+				fn(llm.CompletionResponse{Content: out[i]})
+			}
 			return err
 		}
 		fn(llm.CompletionResponse{Content: out[i]})
@@ -401,7 +409,7 @@ func (cw *c15World) clientTask(id int) {
 			cw.pullRemote()
 			continue
 		}
-		if c15NoInfiniteKeepAlive && verifsim.Draw("abandon", 5) == 0 {
+		if verifsim.Draw("abandon", 5) == 0 {
 			cw.abandonedRequest()
 			continue
 		}
@@ -410,7 +418,7 @@ func (cw *c15World) clientTask(id int) {
 	cw.clientDone()
 }
 
-// abandonedRequest (C02 stage only): the client goes away after a while - before, during or
+// abandonedRequest: the client goes away after a while - before, during or
 // after the load its request needs - and does not wait for the handler, which C02 allows to
 // stay unanswered. What C02 does not allow is that this costs anybody else their reply.
 func (cw *c15World) abandonedRequest() {
@@ -418,14 +426,20 @@ func (cw *c15World) abandonedRequest() {
 	ctx, cancel := context.WithCancel(context.Background())
 	stream := verifsim.Draw("stream", 2) == 0
 	req := api.GenerateRequest{Model: name, Prompt: "never mind", Stream: &stream, KeepAlive: drawKeepAlive()}
-	answered := false
+	chat := verifsim.Draw("abandon-chat", 2) == 0
+	var answered atomic.Bool
 	verifsim.Go("abandoned", func() {
-		r := cw.apiJSON(ctx, "POST", "/api/generate", req)
-		cw.count("generate", r.code)
-		answered = true
+		if chat {
+			r := cw.apiJSON(ctx, "POST", "/api/chat", api.ChatRequest{Model: name, Messages: []api.Message{{Role: "user", Content: "never mind"}}, Stream: &stream, KeepAlive: req.KeepAlive})
+			cw.count("chat", r.code)
+		} else {
+			r := cw.apiJSON(ctx, "POST", "/api/generate", req)
+			cw.count("generate", r.code)
+		}
+		answered.Store(true)
 	})
 	verifsim.Sleep(time.Duration(verifsim.Draw("abandon-after", 3000)) * time.Millisecond)
-	if !answered {
+	if !answered.Load() {
 		verifsim.Fault("client_interrupt")
 	}
 	cancel()
